@@ -354,7 +354,12 @@ pub fn gen_c08(prop: &str, tier: Tier, rng: &mut Rng, seed: u64, run: u64) -> Pl
     let nt = term_count(&specs);
     let ranges = term_ranges(&specs);
     let mut st = Stamps::new(rng, true, false);
-    let scale = *rng.pick(&[1.0f32, 1.0, 0.125, 64.0]);
+    // (readings far from 1: squares of such values leave the f32 range long before the values do)
+    let scale = if rng.chance(0.06) {
+        *rng.pick(&[1e19f32, 3e20, 1e25, 1e30, 1e-20, 1e-23, 1e-27])
+    } else {
+        *rng.pick(&[1.0f32, 1.0, 0.125, 64.0])
+    };
     // in an eighth of the runs some device terminals get their states by FOLLOWING a getter (pulled by
     // the owning device's update) instead of by set
     let follow_mode = rng.chance(0.125);
@@ -374,6 +379,10 @@ pub fn gen_c08(prop: &str, tier: Tier, rng: &mut Rng, seed: u64, run: u64) -> Pl
                         } else {
                             plan.push("TFN", &[k as i64]);
                         }
+                    }
+                    if rng.chance(0.15) {
+                        let t = st.next(rng);
+                        plan.push("TFC", &[k as i64, t, rng.below(3) as i64, fb(rng.moderate_f32())]);
                     }
                 }
             }
@@ -527,6 +536,18 @@ pub fn gen_c13(prop: &str, tier: Tier, rng: &mut Rng, seed: u64, run: u64) -> Pl
     let mut st = Stamps::new(rng, true, mono);
     let rounds = rng.range(1, if tier == Tier::Quick { 5 } else { 8 });
     let stale_p = *rng.pick(&[0.0, 0.1, 0.3]);
+    let cmd_follow_mode = rng.chance(0.1);
+    if cmd_follow_mode {
+        // free some device terminals again (an update with a LINKED follower terminal is not judged)
+        for d in 0..ndev {
+            let (lo, hi) = ranges[d];
+            for kk in lo..hi {
+                if rng.chance(0.3) {
+                    plan.push("D", &[kk as i64]);
+                }
+            }
+        }
+    }
     for _ in 0..rounds {
         // issue one or more commands
         let ncmd = rng.range(1, 3);
@@ -544,6 +565,24 @@ pub fn gen_c13(prop: &str, tier: Tier, rng: &mut Rng, seed: u64, run: u64) -> Pl
             let t = st.next(rng);
             let k = rng.below(nt as u64) as usize;
             state_op(&mut plan, rng, k, t, 1.0);
+        }
+        // in a tenth of the runs device terminals get commands by FOLLOWING a getter (pulled into the
+        // terminal's own slot by the owning device at the start of each of its updates): usually an older
+        // command than the newest one around
+        if cmd_follow_mode {
+            for d in 0..ndev {
+                let (lo, hi) = ranges[d];
+                for kk in lo..hi {
+                    if rng.chance(0.25) {
+                        if rng.chance(0.85) {
+                            let t = st.next(rng);
+                            plan.push("TFC", &[kk as i64, t, rng.below(3) as i64, fb(rng.moderate_f32())]);
+                        } else {
+                            plan.push("TFCN", &[kk as i64]);
+                        }
+                    }
+                }
+            }
         }
         // a coupling is taken apart (from either end) and usually not put back: commands issued from
         // then on must stay on their side of the gap
@@ -662,6 +701,7 @@ pub fn gen_c20(prop: &str, tier: Tier, rng: &mut Rng, seed: u64, run: u64) -> Pl
     // (while cut the wrapper's terminal sees only what it holds itself - usually nothing)
     let partition_p = if rng.chance(0.33) { 0.12 } else { 0.0 };
     let mut cut = false;
+    let mut last_enc_t: Option<i64> = None;
     // in a quarter of the runs the inner objects talk back to their wrapper's terminal from inside
     // the calls the wrapper makes on them
     let feedback_p = if rng.chance(0.25) { 0.3 } else { 0.0 };
@@ -723,7 +763,13 @@ pub fn gen_c20(prop: &str, tier: Tier, rng: &mut Rng, seed: u64, run: u64) -> Pl
                     } else if r < 2.0 * fault {
                         plan.push("ENCE", &[d as i64, rng.range(1, 3)]);
                     } else if rng.chance(0.7) {
-                        let t = st.next(rng);
+                        // (an encoder whose clock is coarser than the polling loop delivers a NEW value under
+                        // the stamp of its previous reading now and then)
+                        let t = match last_enc_t {
+                            Some(t) if !monotone && rng.chance(0.1) => t,
+                            _ => st.next(rng),
+                        };
+                        last_enc_t = Some(t);
                         // half of the readings only become current inside the inner update()
                         let code = if rng.chance(0.5) { "ENCP" } else { "ENC" };
                         let (p, v, a) = (rng.moderate_f32(), rng.moderate_f32(), rng.moderate_f32());
